@@ -70,6 +70,10 @@ type SugarDB struct {
 		embedded   internal.ConnectionInfo               // Information for the embedded connection.
 	}
 
+	// Held for the whole of a command (handler and append-only log record) and while the state is
+	// copied for a snapshot, so that commands are atomic. Always taken before storeLock.
+	commandLock sync.Mutex
+
 	// Global read-write mutex for entire store.
 	storeLock *sync.RWMutex
 
@@ -268,6 +272,9 @@ func NewSugarDB(options ...func(sugarDB *SugarDB)) (*SugarDB, error) {
 			snapshot.WithSetLatestSnapshotTimeFunc(sugarDB.setLatestSnapshot),
 			snapshot.WithGetLatestSnapshotTimeFunc(sugarDB.getLatestSnapshotTime),
 			snapshot.WithGetStateFunc(func() map[int]map[string]internal.KeyData {
+				// Snapshots are taken by goroutines of their own: copy the state between two commands.
+				sugarDB.commandLock.Lock()
+				defer sugarDB.commandLock.Unlock()
 				state := make(map[int]map[string]internal.KeyData)
 				for database, data := range sugarDB.getState() {
 					state[database] = make(map[string]internal.KeyData)
